@@ -229,6 +229,16 @@ def decide_node(pid, tier, sd):
             "how": "./check %s --replay <this file> regenerates the run on the real library and re-evaluates the monitor" % pid})
         lines.append("VIOLATION property=%s replay=%s" % (pid, path))
         violation = True
+    elif pid == "C11" and any(d["kind"] == "PANIC-IMPL-ONLY" for d in rel):
+        # the library panicked on a well-formed call where the model does not: the history up to that call is the failing input
+        pn = [d for d in rel if d["kind"] == "PANIC-IMPL-ONLY"]
+        h = pn[0]
+        path = write_replay(pid, "panic-%d-%s-%d" % (sd, h["job"], h["run"]), {
+            "property": pid, "kind": "panic", "what": "the library panics in the API call [%s] of node %d (run %d); the model does not" % (h["op"], h["node"], h["run"]),
+            "history_cmd": "verifh " + h["cmd"], "run": h["run"], "op": h["op"], "all": pn[:20],
+            "how": "./check %s --replay <this file> regenerates the run on the real library and shows the PANIC lines" % pid})
+        lines.append("VIOLATION property=%s replay=%s" % (pid, path))
+        violation = True
     elif not ps["ok"] or rel:
         what = []
         if not ps["ok"]:
@@ -273,6 +283,28 @@ def node_side(pid, tier, sd):
 def replay(pid, path):
     with open(path) as f:
         r = json.load(f)
+    if r.get("kind") == "panic":
+        h = build_harness()
+        if not h["ok"]:
+            print(h["log"])
+            return 1
+        cmd = r["history_cmd"].split()[1:]
+        if cmd[0] == "gen":
+            cmd = ["gen", cmd[1], str(r["run"]), str(r["run"] + 1)]
+        elif cmd[0] == "sync":
+            cmd = ["sync", cmd[1], cmd[2], str(r["run"]), str(r["run"] + 1)]
+        p = sh([h["bin"]] + cmd, check=False, timeout=600)
+        out, run, op, hits = p.stdout.split("\n"), -1, "", 0
+        for l in out:
+            if l.startswith("RUN "):
+                run = int(l.split()[1])
+            elif l.startswith("OP "):
+                op = l
+            elif l.startswith("PANIC") and run == r["run"]:
+                hits += 1
+                print("run %d, %s: %s" % (run, op, l))
+        print("replayed `verifh %s` on the real library: %d panics in run %d" % (" ".join(cmd), hits, r["run"]))
+        return 1 if hits else 0
     if r.get("kind") != "monitor":
         print(json.dumps(r, indent=1)[:4000])
         print("this replay names a proof obligation / correspondence that no longer checks; there is no failing input to run")
